@@ -23,6 +23,19 @@ Theorem c14_bloom_alloc_justified :
   forall bs, long_form bs -> bf_alloc_bytes bs + 32 <= N.of_nat (length bs) \/ bf_alloc_bytes bs = 0.
 Proof. exact alloc_justified. Qed.
 
+(* bf_alloc_bytes is not a free-standing cost function: the instrumented reader bf_deserialize_cost (Model/Bloom.v)
+   follows deserialize()'s control flow and records the request vec![0u64; num_words] where it happens; its outcome IS
+   bf_deserialize's and what it requests IS bf_alloc_bytes *)
+Theorem c14_bloom_cost_is_reader :
+  forall bs, fst (bf_deserialize_cost bs) = bf_deserialize bs /\ snd (bf_deserialize_cost bs) = bf_alloc_bytes bs.
+Proof. exact deserialize_cost_spec. Qed.
+
+(* ... so, on the reader's own path and whatever the outcome (Ok, Err before or after the allocation): *)
+Theorem c14_bloom_reader_alloc_justified :
+  forall bs, long_form bs ->
+  snd (bf_deserialize_cost bs) + 32 <= N.of_nat (length bs) \/ snd (bf_deserialize_cost bs) = 0.
+Proof. exact reader_alloc_justified. Qed.
+
 (* the known exception, as a witness: a short-form image exists on which the allocation is out of proportion *)
 Theorem c14_bloom_known_empty_alloc :
   ~ long_form empty_alloc_image /\ length empty_alloc_image = 24%nat /\
